@@ -95,8 +95,36 @@ def cook_engine(schema, name, cfg=None, sdl=None, **extra):
     return run_sim(loop, cook(schema, name, cfg, sdl, **extra))
 
 
+def take_response(resp, consume=True):
+    """The response belongs to the caller: keep a snapshot for the oracles and let the 'client' edit the
+    object it was given in place (paths, locations, data containers).  Harmless unless the engine keeps
+    handing out the same objects (cached errors, shared lists) to later requests."""
+    if not consume or not isinstance(resp, dict):
+        return resp
+    try:
+        kept = copy.deepcopy(resp)
+    except Exception:  # noqa: BLE001 -- not copyable (reported by the oracles anyway): leave it alone
+        return resp
+    _edit_in_place(resp, 0)
+    return kept
+
+
+def _edit_in_place(v, depth):
+    if depth > 12:
+        return
+    if isinstance(v, dict):
+        for x in list(v.values()):
+            _edit_in_place(x, depth + 1)
+        v["__edited_by_client__"] = True
+    elif isinstance(v, list):
+        for x in v:
+            _edit_in_place(x, depth + 1)
+        v.insert(0, "__edited_by_client__")
+
+
 def execute_once(engine, text, op_name, variables, plan, choice, scheduler="random", busy_pct=30,
-                 point_mode="gate", rid=0, root_value=None, override=None, context=None, step_cap=200_000, type_override=None, deny=False):
+                 point_mode="gate", rid=0, root_value=None, override=None, context=None, step_cap=200_000, type_override=None, deny=False,
+                 consume_response=True):
     loop = SimLoop(choice, scheduler, busy_pct, point_mode, step_cap)
     rt = Runtime(rid, loop, plan)
     rt.engine_cfg = getattr(engine, "_simv_cfg", None) or {}
@@ -113,6 +141,7 @@ def execute_once(engine, text, op_name, variables, plan, choice, scheduler="rand
         resp = await engine.execute(text, operation_name=op_name, context=ctx,
                                     variables=copy.deepcopy(variables), initial_value=root_value)
         consume_args(rt)
+        resp = take_response(resp, consume_response)
         me = asyncio.current_task()
         out.tasks_alive = len([t for t in asyncio.all_tasks(loop) if t is not me and not t.done()])
         out.parked_left = len([g for g in loop.parked if not g.fut.done()])
@@ -203,6 +232,7 @@ def run_batch(engine, reqs, choice, scheduler="random", busy_pct=30, point_mode=
                                           variables=copy.deepcopy(r.variables),
                                           initial_value=r.plan.root_value if r.plan is not None else None)
             consume_args(r.rt)
+            r.resp = take_response(r.resp)
         except asyncio.CancelledError:
             r.cancelled = True
             raise
